@@ -75,6 +75,12 @@ pub fn worker(args: &[String]) -> i32 {
                     ids.push(id.clone());
                     last_msg = Some(id);
                 }
+                "msg70k" => {
+                    // a frame longer than the first window of every backward tail scan (64 KiB)
+                    let id = store.append_message(&thread, "u".into(), "o".into(), "y".repeat(70 * 1024))?;
+                    ids.push(id.clone());
+                    last_msg = Some(id);
+                }
                 "msg9k" => {
                     let id = store.append_message(&thread, "u".into(), "o".into(), "x".repeat(9 * 1024))?;
                     ids.push(id.clone());
@@ -477,7 +483,7 @@ pub fn run(opts: Opts) -> i32 {
         "every history of <=2 ops (quick; thorough: <=3 over all 11 ops, <=4 over the 5 cheapest) from {message, 9 KiB message, linked stub run, \
          side effects, manual checkpoint, auto compaction, branch, handoff, cursor set, cursor rotate, selection+compiled} after an implicit \
          open+ensure_default is run by a subprocess under an LD_PRELOAD shim; for EVERY mutating file-system call k on a store path \
-         (open-create/trunc, write, pwrite, rename, unlink, mkdir, ftruncate) the process is killed immediately before call k and the recovery \
+         (open-create/trunc, write, pwrite, rename, unlink, mkdir, ftruncate) plus a 70 KiB message (longer than the first tail-scan window) before and after every op; the process is killed immediately before call k and the recovery \
          oracle runs on what is left; a case = (history, k), all distinct",
     );
     report.assume("crash model = process death at syscall boundaries, each write(2) atomic; no power loss / reordered write-back (rip never fsyncs)");
@@ -496,6 +502,12 @@ pub fn run(opts: Opts) -> i32 {
                 hs.push(h);
             }
         }
+    }
+    // one frame longer than the first window of the backward tail scans, before and after every op
+    hs.push(vec!["msg70k"]);
+    for op in OPS {
+        hs.push(vec![op, "msg70k"]);
+        hs.push(vec!["msg70k", op]);
     }
     report.set_extra("histories", json!(hs.len()));
     report.sample(json!({"ops": ["msg9k", "ckpt"], "crash": "before every mutating call k"}));
